@@ -14,7 +14,7 @@ TEXT = {
         "level_note": "Trusted base: harness/hlref (reference codec written from the protocol document), rapid, Go runtime. Large objects are only paired with buffers >= len^2/2MiB (harness cost bound).",
     },
     "C04": {
-        "engine": "E1 bubble world",
+        "engine": "E1 bubble world + E4 child server (refused logins through the production accept loop)",
         "technique": "property-based testing (rapid) of the real connection loop in a synctest bubble against a login reference model, with observers and filesystem snapshots as effect oracles",
         "level_text": "Generated-input exploration of the login gate: account databases, handshake variants, near-miss credentials, pipelined state-changing requests and ban states are generated; the oracle is an explicit model of 'logged in' plus exact expectations on the bytes the peer receives, on-disk state and what other users receive. Sampled, not exhaustive.",
         "design_ref": "DESIGN.md section 2, C04",
